@@ -7,14 +7,140 @@ U2 linkage_to_bio_tree: nleaves; row unpack (left, right, height, size); for BOT
 U3 labels and signatures come from one source   U4 matrix = non-flat pairwise of those signatures, unchanged into hclust; Newick to stdout
 """
 import ast
+import copy
 
 from .. import align
-from ..affine import Aff, sym
+from ..affine import Aff, sym, path_of
 from ..astutil import (u, atoms, guard_map, path_atoms, stmts_in, calls_in, callee, callee_attr, reaching_def, def_value,
-                       PARAM, AMBIGUOUS, get_arg, get_kw, is_none, is_const, block_path)
+                       PARAM, AMBIGUOUS, get_arg, get_kw, is_none, is_const, block_path, stmt_of)
 from ..report import Undecided
 
 CL = 'gambit.cluster'
+
+
+class PyList:
+    """A list the row body builds element by element (symbolic elements)."""
+
+    def __init__(self, elts):
+        self.elts = list(elts)
+        self.captured = False
+
+
+class RowExec:
+    """Symbolic execution of a straight-line block: every local is replaced by its definition (so the rules see closed expressions
+    over the loop targets and the outer names), `for x in (a, b)` over a literal is unrolled, a two-armed `if` that only chooses values
+    becomes a conditional expression.  Records attribute stores (object, attribute, value, stmt) and appends to outer lists
+    (list name, value, stmt).  Anything else is outside the vocabulary (Undecided, naming the statement)."""
+
+    def __init__(self, where):
+        self.where = where
+        self.env = {}
+        self.stores = []
+        self.appends = []
+
+    def subst(self, e):
+        ex = self
+
+        class S(ast.NodeTransformer):
+            def visit_Name(self, n):
+                if isinstance(n.ctx, ast.Load) and n.id in ex.env:
+                    v = ex.env[n.id]
+                    if isinstance(v, PyList):
+                        v.captured = True
+                        return ast.List(elts=[copy.deepcopy(x) for x in v.elts], ctx=ast.Load())
+                    return copy.deepcopy(v)
+                return n
+
+            def visit_ListComp(self, n):
+                # a comprehension over a literal sequence is the list of its instances
+                if len(n.generators) == 1 and not n.generators[0].ifs and isinstance(n.generators[0].target, ast.Name):
+                    g = n.generators[0]
+                    it = ex.subst(g.iter)
+                    if isinstance(it, (ast.Tuple, ast.List)) and not any(isinstance(x, ast.Starred) for x in it.elts):
+                        out = []
+                        saved = ex.env.get(g.target.id, None)
+                        for x in it.elts:
+                            ex.env[g.target.id] = x
+                            out.append(ex.subst(n.elt))
+                        if saved is None:
+                            ex.env.pop(g.target.id, None)
+                        else:
+                            ex.env[g.target.id] = saved
+                        return ast.List(elts=out, ctx=ast.Load())
+                bound = {x.id for g in n.generators for x in ast.walk(g.target) if isinstance(x, ast.Name)}
+                if bound & set(ex.env):
+                    raise Undecided(f'{ex.where}: comprehension rebinding a row local: {u(n)[:60]}')
+                return self.generic_visit(n)
+        return S().visit(copy.deepcopy(e))
+
+    def bind(self, target, value, stmt):
+        if isinstance(target, ast.Name):
+            if isinstance(value, ast.List) and isinstance(value.ctx, ast.Load) and not any(isinstance(x, ast.Starred) for x in value.elts):
+                self.env[target.id] = PyList(value.elts)
+            else:
+                self.env[target.id] = value
+        elif isinstance(target, (ast.Tuple, ast.List)) and isinstance(value, (ast.Tuple, ast.List)) and len(target.elts) == len(value.elts) \
+                and not any(isinstance(x, ast.Starred) for x in list(target.elts) + list(value.elts)):
+            for t, v in zip(target.elts, value.elts):
+                self.bind(t, v, stmt)
+        elif isinstance(target, ast.Attribute):
+            self.stores.append((self.subst(target.value), target.attr, value, stmt))
+        else:
+            raise Undecided(f'{self.where}: assignment target outside the vocabulary in the row body: {u(stmt)[:70]}')
+
+    def block(self, stmts):
+        for s in stmts:
+            self.stmt(s)
+
+    def stmt(self, s):
+        if isinstance(s, ast.Assign):
+            v = self.subst(s.value)
+            for t in s.targets:
+                self.bind(t, v, s)
+        elif isinstance(s, ast.AnnAssign) and s.value is not None:
+            self.bind(s.target, self.subst(s.value), s)
+        elif isinstance(s, ast.Expr) and isinstance(s.value, ast.Call) and isinstance(s.value.func, ast.Attribute) and s.value.func.attr == 'append' \
+                and isinstance(s.value.func.value, ast.Name) and len(s.value.args) == 1 and not s.value.keywords:
+            name = s.value.func.value.id
+            v = self.subst(s.value.args[0])
+            lst = self.env.get(name)
+            if isinstance(lst, PyList):
+                if lst.captured:
+                    raise Undecided(f'{self.where}: list {name} grows after it was used')
+                lst.elts.append(v)
+            elif lst is None:
+                self.appends.append((name, v, s))
+            else:
+                raise Undecided(f'{self.where}: append to {name}, which is not a list built in the row body')
+        elif isinstance(s, ast.Expr) and isinstance(s.value, ast.Constant) or isinstance(s, ast.Pass):
+            pass
+        elif isinstance(s, ast.For) and not s.orelse:
+            it = self.subst(s.iter)
+            if not (isinstance(it, (ast.Tuple, ast.List)) and not any(isinstance(x, ast.Starred) for x in it.elts)):
+                raise Undecided(f'{self.where}: inner loop over {u(s.iter)[:50]}, which is not a literal sequence')
+            for x in it.elts:
+                self.bind(s.target, x, s)
+                self.block(s.body)
+        elif isinstance(s, ast.If):
+            arms = []
+            sizes = {k: len(v.elts) for k, v in self.env.items() if isinstance(v, PyList)}
+            for body in (s.body, s.orelse):
+                sub = RowExec(self.where)
+                sub.env = dict(self.env)
+                sub.block(body)
+                if sub.stores or sub.appends or any(isinstance(v, PyList) and (v is not self.env.get(k) or len(v.elts) != sizes[k]) for k, v in sub.env.items()):
+                    raise Undecided(f'{self.where}: conditional statement with effects in the row body: if {u(s.test)[:50]}')
+                arms.append(sub.env)
+            test = self.subst(s.test)
+            for k in sorted(set(arms[0]) | set(arms[1])):
+                a, b = arms[0].get(k), arms[1].get(k)
+                if a is self.env.get(k) and b is self.env.get(k):
+                    continue
+                if a is None or b is None:
+                    raise Undecided(f'{self.where}: {k} is bound in one arm only of: if {u(s.test)[:50]}')
+                self.env[k] = a if u(a) == u(b) else ast.IfExp(test=copy.deepcopy(test), body=a, orelse=b)
+        else:
+            raise Undecided(f'{self.where}: statement outside the vocabulary in the row body: {u(s).splitlines()[0][:70]}')
 
 
 def check(ctx):
@@ -33,6 +159,7 @@ def check(ctx):
     tgt = m.resolve_call(fh, lc)
     meth = get_arg(lc, 1, 'method')
     rep.add('U1', fh.site(lc), "clustering is SciPy average linkage (UPGMA)", tgt == 'scipy.cluster.hierarchy.linkage' and is_const(meth, 'average'), expected="linkage(..., method='average')", found=(tgt, u(meth)), stmt='linkage method')
+    rep.require(bool(lc.args) and not isinstance(lc.args[0], ast.Starred), 'hclust: the linkage input is not a positional argument')
     a0 = lc.args[0]
     av = a0
     if isinstance(a0, ast.Name):
@@ -60,53 +187,67 @@ def check(ctx):
     rep.add('U2', ft.site(), 'number of leaves = linkage rows + 1', nl is not None, expected=f'{lk}.shape[0] + 1', found=[u(s) for s in fn.body if isinstance(s, ast.Assign)][:2], stmt='nleaves')
     rep.require(nl is not None, 'linkage_to_bio_tree: nleaves not found')
     loops = [s for s in fn.body if isinstance(s, ast.For)]
-    rep.require(len(loops) == 1 and isinstance(loops[0].target, ast.Tuple) and len(loops[0].target.elts) == 4, 'linkage_to_bio_tree: expected one loop unpacking four columns')
+    rep.require(len(loops) == 1 and isinstance(loops[0].target, ast.Tuple) and len(loops[0].target.elts) == 4 and all(isinstance(e, ast.Name) for e in loops[0].target.elts),
+                'linkage_to_bio_tree: expected one loop unpacking four columns')
     lp = loops[0]
     cl, cr, hv, sz = (u(e) for e in lp.target.elts)
     rep.add('U2', ft.site(lp), 'linkage rows are visited in order and unpacked as (left, right, height, size)', u(lp.iter) == lk, expected=f'for left, right, height, size in {lk}', found=(u(lp.iter), u(lp.target)), stmt='row unpack')
-    clades = None
-    apps = [c for c in calls_in(lp) if callee_attr(c) == 'append']
-    rep.require(len(apps) == 1, 'linkage_to_bio_tree: expected one append per row')
-    clades = u(apps[0].func.value)
-    # children
-    child = {}
-    for s in lp.body:
-        if isinstance(s, ast.Assign) and isinstance(s.value, ast.Subscript) and u(s.value.value) == clades:
-            child[u(s.targets[0])] = u(s.value.slice)
-    ints = {u(s.targets[0]): u(s.value) for s in lp.body if isinstance(s, ast.Assign) and isinstance(s.value, ast.Call) and u(s.value.func) == 'int'}
-    bls = [s for s in lp.body if isinstance(s, ast.Assign) and isinstance(s.targets[0], ast.Attribute) and s.targets[0].attr == 'branch_length']
+    # one row = one symbolic execution of the loop body: locals are substituted by their definitions, loops over a literal pair are unrolled,
+    # lists built element by element are lists; what remains are the effects of the row: attribute stores and appends to outer lists
+    row = RowExec('linkage_to_bio_tree')
+    row.block(lp.body)
+    rep.require(not lp.orelse, 'linkage_to_bio_tree: the row loop has an else clause')
+    outer = sorted({name for (name, _, _) in row.appends})
+    rep.require(len(outer) == 1, f'linkage_to_bio_tree: expected the row body to append to exactly one outer list (the clades), found {outer}')
+    clades, new_clade, ap = row.appends[0]
+    rep.add('U2', ft.site(ap), 'exactly one node is created per linkage row (node id = nleaves + row index)', len(row.appends) == 1, expected='one append per row', found=[f'{n}.append({u(v)[:50]})' for n, v, _ in row.appends], stmt='one node per row')
+    other = [(u(o), a) for (o, a, v, st_) in row.stores if a != 'branch_length']
+    rep.require(not other, f'linkage_to_bio_tree: the row body stores into {other[0] if other else ""}, an attribute outside the rules')
+    bls = [x for x in row.stores if x[1] == 'branch_length']
     rep.floor('U2', 'branch-length assignments per row', len(bls), 2)
+    aenv = {f'{lk}.shape[0]': sym('R'), f'len({lk})': sym('R'), nl: sym('R').plus(1)}
+    want_child = {f'{clades}[int({cl})]': 'left', f'{clades}[int({cr})]': 'right'}
+
+    def diff(a, b, idx_path):
+        e_ = dict(aenv)
+        e_[idx_path] = sym('c')
+        x, y = Aff.try_of(a, e_), Aff.try_of(b, e_)
+        return None if x is None or y is None else x.sub(y)
     sides = {}
-    for s in bls:
-        node = u(s.targets[0].value)
-        idx = child.get(node)
-        col = ints.get(idx)
-        v = s.value
-        ok = isinstance(v, ast.BinOp) and isinstance(v.op, ast.Sub) and u(v.left) == hv and isinstance(v.right, ast.IfExp)
+    for (obj, attr, v, st_) in bls:
+        which = want_child.get(u(obj))
+        idx = obj.slice if isinstance(obj, ast.Subscript) and u(obj.value) == clades else None
+        ip = path_of(idx) if idx is not None else None
+        ok = isinstance(v, ast.BinOp) and isinstance(v.op, ast.Sub) and u(v.left) == hv and isinstance(v.right, ast.IfExp) and ip is not None
         detail = u(v)
         if ok:
             ie = v.right
-            t = atoms(ie.test)
-            leaf_first = t == {('lt', idx, nl)}
-            internal_first = t == {('le', nl, idx)}
-            zero, sub = (ie.body, ie.orelse) if leaf_first else (ie.orelse, ie.body) if internal_first else (None, None)
+            t = atoms(ie.test, key=lambda n_: n_)
+            zero = sub = None
+            if t is not None and len(t) == 1:
+                (op_, a_, b_), = t
+                d_ = diff(a_, b_, ip) if op_ in ('lt', 'le') else None
+                c_nl = sym('c').sub(sym('R')).plus(-1)                 # child - nleaves
+                # child < nleaves  (or child <= nleaves - 1)  <=>  leaf; nleaves <= child (or nleaves - 1 < child) <=> internal node
+                if d_ is not None and ((op_ == 'lt' and d_ == c_nl) or (op_ == 'le' and d_ == c_nl.plus(1))):
+                    zero, sub = ie.body, ie.orelse
+                elif d_ is not None and ((op_ == 'le' and d_ == c_nl.scale(-1)) or (op_ == 'lt' and d_ == c_nl.scale(-1).plus(-1))):
+                    zero, sub = ie.orelse, ie.body
             ok = zero is not None and is_const(zero, 0) and isinstance(sub, ast.Subscript) and u(sub.value) == lk and isinstance(sub.slice, ast.Tuple) and len(sub.slice.elts) == 2 \
-                and Aff.try_of(sub.slice.elts[0], {idx: sym('c'), nl: sym('NL')}) == sym('c').sub(sym('NL')) and is_const(sub.slice.elts[1], 2)
-        which = 'left' if col == f'int({cl})' or col == cl or ints.get(idx) == f'int({cl})' else 'right' if ints.get(idx) == f'int({cr})' else None
+                and diff(sub.slice.elts[0], ast.Constant(value=0), ip) == sym('c').sub(sym('R')).plus(-1) and is_const(sub.slice.elts[1], 2)
         if which is None:
-            which = 'left' if idx == cl else 'right' if idx == cr else f'?{idx}'
-        sides[which] = ok
-        rep.add('U2', ft.site(s), f'{which} child: branch length = parent height - child height (0 for a leaf, else column 2 of linkage row child - nleaves)', ok,
-                expected=f'{hv} - (0 if {idx} < {nl} else {lk}[{idx} - {nl}, 2])', found=detail, stmt=f'{which} branch length')
-        rep.add('U2', ft.site(s), f'{which} child: the clade whose branch length is set is the clade at that child index', idx is not None and ints.get(idx) in (f'int({cl})', f'int({cr})'), expected=f'{node} = {clades}[int(...)]',
-                found=(node, idx, ints.get(idx)), stmt=f'{which} child identity')
+            which = f'?{u(obj)}'
+        sides[which] = sides.get(which, True) and ok
+        rep.add('U2', ft.site(st_), f'{which} child: branch length = parent height - child height (0 for a leaf, else column 2 of linkage row child - nleaves)', ok,
+                expected=f'{hv} - (0 if <child> < {nl} else {lk}[<child> - {nl}, 2])', found=detail, stmt=f'{which} branch length')
+        rep.add('U2', ft.site(st_), f'{which} child: the clade whose branch length is set is the clade at that child index', which in ('left', 'right'), expected=f'{clades}[int({cl})] | {clades}[int({cr})]',
+                found=u(obj), stmt=f'{which} child identity')
     rep.add('U2', ft.site(lp), 'both children are handled (sibling agreement)', set(sides) == {'left', 'right'} and all(sides.values()), expected='left and right identical up to the column', found=sides, stmt='siblings')
-    ap = apps[0]
-    a0 = ap.args[0]
-    okc = isinstance(a0, ast.Call) and u(a0.func) == 'Clade' and isinstance(get_kw(a0, 'clades'), ast.List) and sorted(child.get(u(e), '?') for e in get_kw(a0, 'clades').elts) == sorted([k for k in ints]) \
-        and len(get_kw(a0, 'clades').elts) == 2
-    rep.add('U2', ft.site(ap), 'each row appends one new clade holding exactly its two children (so node id = nleaves + row index)', okc and block_path(fn, next(s for s in lp.body if isinstance(s, ast.Expr) and s.value is ap))[-1][0] is lp.body,
-            expected='clades.append(Clade(clades=[left, right]))', found=u(ap), stmt='new clade')
+    kids = get_kw(new_clade, 'clades') if isinstance(new_clade, ast.Call) else None
+    okc = isinstance(new_clade, ast.Call) and u(new_clade.func) == 'Clade' and not new_clade.args and [k.arg for k in new_clade.keywords] == ['clades'] and isinstance(kids, ast.List) \
+        and len(kids.elts) == 2 and sorted(u(e) for e in kids.elts) == sorted(want_child)
+    rep.add('U2', ft.site(ap), 'each row appends one new clade holding exactly its two children (so node id = nleaves + row index)', okc,
+            expected=f'{clades}.append(Clade(clades=[left, right]))', found=f'{clades}.append({u(new_clade)})', stmt='new clade')
     cdef = [s for s in fn.body if isinstance(s, ast.Assign) and u(s.targets[0]) == clades]
     okl = len(cdef) == 1 and isinstance(cdef[0].value, ast.ListComp) and u(cdef[0].value.generators[0].iter) == lb and not cdef[0].value.generators[0].ifs \
         and u(cdef[0].value.elt) == f'Clade(name={u(cdef[0].value.generators[0].target)})'
@@ -116,7 +257,11 @@ def check(ctx):
     rep.add('U2', ft.site(asserts[0] if asserts else None), 'the number of labels must equal the number of leaves', oka, expected=f'assert len({lb}) == {nl}', found=[u(a.test) for a in asserts], stmt='label count')
     last = fn.body[-1]
     rep.account_returns('U2', ft, [last] if isinstance(last, ast.Return) else [], 'tree')
-    okr = isinstance(last, ast.Return) and isinstance(last.value, ast.Call) and u(last.value.func) == 'Tree' and u(get_kw(last.value, 'root')) == f'{clades}[-1]' and is_const(get_kw(last.value, 'rooted'), True)
+    root = get_kw(last.value, 'root') if isinstance(last, ast.Return) and isinstance(last.value, ast.Call) else None
+    if isinstance(root, ast.Name):       # bound to a local first
+        d = reaching_def(fn, root.id, last)
+        root = def_value(d) if d not in (None, PARAM, AMBIGUOUS) and block_path(fn, d)[-1][0] is fn.body and fn.body.index(d) > fn.body.index(lp) else root
+    okr = isinstance(last, ast.Return) and isinstance(last.value, ast.Call) and u(last.value.func) == 'Tree' and u(root) == f'{clades}[-1]' and is_const(get_kw(last.value, 'rooted'), True)
     rep.add('U2', ft.site(last), 'the root is the last clade created (the final merge); the tree is rooted', okr, expected=f'Tree(root={clades}[-1], rooted=True)', found=u(last), stmt='root')
 
     # ---- U3 / U4
@@ -129,15 +274,35 @@ def check(ctx):
     lt = [c for c in calls_in(cn) if m.resolve_call(fc, c) == f'{CL}.linkage_to_bio_tree']
     wr = [c for c in calls_in(cn) if u(c.func) == 'Phylo.write']
     rep.require(len(pw) == len(hc) == len(lt) == len(wr) == 1, 'tree_cmd: expected one each of pairwise / hclust / linkage_to_bio_tree / Phylo.write')
-    pst = next(s for s in cn.body if isinstance(s, ast.Assign) and s.value is pw[0])
-    hst = next(s for s in cn.body if isinstance(s, ast.Assign) and s.value is hc[0])
-    tst = next(s for s in cn.body if isinstance(s, ast.Assign) and s.value is lt[0])
-    sigs = u(pw[0].args[0])
+
+    def origin(e, at):
+        """(expression, statement) a value comes from: plain copies through locals (one structured reaching definition each) are followed."""
+        for _ in range(8):
+            if not isinstance(e, ast.Name):
+                break
+            d = reaching_def(cn, e.id, at)
+            v = def_value(d) if d not in (None, PARAM, AMBIGUOUS) else None
+            if v is None:
+                break
+            e, at = v, d
+        return e, at
+
+    def holder(call):
+        st = stmt_of(cn, call)
+        rep.require(st is not None, f'tree_cmd: cannot locate the statement evaluating {u(call)[:50]}')
+        return st
+    sigs = u(pw[0].args[0]) if pw[0].args else None
+    rep.require(sigs is not None and isinstance(pw[0].args[0], ast.Name), 'tree_cmd: the operand of jaccarddist_pairwise is not a local variable')
     rep.add('U4', fc.site(pw[0]), 'the distance matrix is the full (non-flat) pairwise matrix of the signatures, in their order', get_kw(pw[0], 'flat') is None and get_kw(pw[0], 'indices') is None and len(pw[0].args) == 1,
             expected=f'jaccarddist_pairwise({sigs})', found=u(pw[0])[:70], stmt='pairwise')
-    rep.add('U4', fc.site(hc[0]), 'that matrix goes unchanged into the clustering', [u(a) for a in hc[0].args] == [u(pst.targets[0])], expected=f'hclust({u(pst.targets[0])})', found=u(hc[0]), stmt='hclust operand')
-    rep.add('U4', fc.site(lt[0]), 'the linkage goes unchanged into the tree builder together with the labels', u(lt[0].args[0]) == u(hst.targets[0]), expected=f'linkage_to_bio_tree({u(hst.targets[0])}, labels)', found=u(lt[0]), stmt='tree operand')
-    rep.add('U4', fc.site(wr[0]), 'the tree is printed as Newick on standard output', [u(a) for a in wr[0].args] == [u(tst.targets[0]), 'sys.stdout', "'newick'"], expected="Phylo.write(tree, sys.stdout, 'newick')", found=u(wr[0]), stmt='newick')
+    h_src = origin(hc[0].args[0], holder(hc[0]))[0] if len(hc[0].args) == 1 and not hc[0].keywords else None
+    rep.add('U4', fc.site(hc[0]), 'that matrix goes unchanged into the clustering', h_src is pw[0], expected=f'hclust(<result of {u(pw[0])[:40]}>)', found=(u(hc[0]), u(h_src)[:70] if h_src is not None else None), stmt='hclust operand')
+    rep.require(len(lt[0].args) == 2 and not lt[0].keywords, 'tree_cmd: linkage_to_bio_tree is not called with (linkage, labels)')
+    t_src = origin(lt[0].args[0], holder(lt[0]))[0]
+    rep.add('U4', fc.site(lt[0]), 'the linkage goes unchanged into the tree builder together with the labels', t_src is hc[0], expected=f'linkage_to_bio_tree(<result of {u(hc[0])[:40]}>, labels)', found=(u(lt[0]), u(t_src)[:70]), stmt='tree operand')
+    w_src = origin(wr[0].args[0], holder(wr[0]))[0] if wr[0].args else None
+    rep.add('U4', fc.site(wr[0]), 'the tree is printed as Newick on standard output', w_src is lt[0] and [u(a) for a in wr[0].args[1:]] == ['sys.stdout', "'newick'"] and not wr[0].keywords, expected="Phylo.write(tree, sys.stdout, 'newick')",
+            found=u(wr[0]), stmt='newick')
     # "twice the height at which UPGMA clustering of the genomes' pairwise distance matrix merges them": the matrix handed to the
     # clustering must be the true pairwise matrix - cell provenance and pairwise layout of C05, re-evaluated
     from . import c05
@@ -145,8 +310,10 @@ def check(ctx):
     rep.rule('B6', 'C05-B6 re-evaluated: pairwise row/column selection, mirror copy, zero diagonal')
     c05.check_stores(ctx)
     c05.check_pairwise(ctx)
+    rep.require(isinstance(lt[0].args[1], ast.Name), 'tree_cmd: the labels argument of linkage_to_bio_tree is not a local variable')
     labels = u(lt[0].args[1])
-    # per branch: labels and sigs defined from one source
+    # per channel: the statement binding the labels and the statement binding the signatures lie under the same path condition; both are traced
+    # back through plain copies to the statements that produced them
     ldefs = [s for s in stmts_in(cn.body) if isinstance(s, ast.Assign) and labels in [u(e) for t in s.targets for e in (t.elts if isinstance(t, ast.Tuple) else [t])]]
     sdefs = [s for s in stmts_in(cn.body) if isinstance(s, ast.Assign) and u(s.targets[0]) == sigs]
     rep.floor('U3', 'label definitions in tree_cmd', len(ldefs), 2)
@@ -155,24 +322,50 @@ def check(ctx):
         blk_sd = [s for s in sdefs if path_atoms(gm[s]) == at]
         rep.require(len(blk_sd) == 1, f'tree_cmd: no unique signature definition in the branch of {u(ld)}')
         sd = blk_sd[0]
+        sval, sd0 = origin(sd.value, sd)                     # where the signatures were produced
         if isinstance(ld.targets[0], ast.Tuple):
-            lroot = f'gambit.cli.common.get_sequence_files({", ".join(u(a) for a in ld.value.args)})@{ld.lineno}' if isinstance(ld.value, ast.Call) and m.resolve_call(fc, ld.value) == 'gambit.cli.common.get_sequence_files' else '?'
-            sroot = align.source(m, fc, sd.value, sd)[0]
-            ok = lroot == sroot and [u(e) for e in ld.targets[0].elts][0] == labels
-            rep.add('U3', fc.site(sd), 'file channel: leaf labels and signatures descend from the same get_sequence_files call (ids first, files second)', ok, expected='same call', found=(lroot, sroot), stmt='file channel labels')
-            okk = isinstance(sd.value, ast.Call) and isinstance(sd.value.args[0], ast.Name)
-            kd = def_value(reaching_def(cn, sd.value.args[0].id, sd)) if okk else None
-            okk = isinstance(kd, ast.Call) and (m.resolve_call(fc, kd) or '').endswith('kspec_from_params') and is_const(get_arg(kd, 2, 'default'), True)
-            rep.add('U3', fc.site(sd), 'signatures are computed with the requested parameters or the default ones', okk, expected='kspec_from_params(k, prefix, default=True)', found=u(kd), stmt='tree kspec')
+            lval, ld0, lname = ld.value, ld, labels
         else:
-            ok = u(ld.value) == f'{sigs}.ids' and isinstance(sd.value, ast.Call) and (m.resolve_call(fc, sd.value) or '').endswith('load_signatures') and sd.lineno < ld.lineno
-            rep.add('U3', fc.site(ld), 'signature-file channel: leaf labels are the stored ids of the loaded signatures', ok, expected=f'{sigs} = load_signatures(sigfile); {labels} = {sigs}.ids', found=(u(sd), u(ld)), stmt='sigfile channel labels')
+            lval, ld0 = origin(ld.value, ld)
+            lname = None
+            if isinstance(lval, ast.Name):
+                # a copy of one component of a tuple assignment
+                d = reaching_def(cn, lval.id, ld0)
+                if isinstance(d, ast.Assign) and isinstance(d.targets[0], ast.Tuple):
+                    lval, ld0, lname = d.value, d, lval.id
+        if lname is not None:
+            comps = [u(e) for e in ld0.targets[0].elts]
+            lroot = f'gambit.cli.common.get_sequence_files({", ".join(u(a) for a in lval.args)})@{ld0.lineno}' if isinstance(lval, ast.Call) and m.resolve_call(fc, lval) == 'gambit.cli.common.get_sequence_files' else '?'
+            sroot = align.source(m, fc, sval, sd0)[0]
+            ok = lroot == sroot and comps[0] == lname
+            rep.add('U3', fc.site(sd0), 'file channel: leaf labels and signatures descend from the same get_sequence_files call (ids first, files second)', ok, expected='same call', found=(lroot, sroot, comps), stmt='file channel labels')
+            karg = get_arg(sval, 0, 'kmerspec') if isinstance(sval, ast.Call) else None
+            kd = origin(karg, sd0)[0] if isinstance(karg, ast.AST) else None
+            okk = isinstance(kd, ast.Call) and (m.resolve_call(fc, kd) or '').endswith('kspec_from_params') and is_const(get_arg(kd, 2, 'default'), True)
+            rep.add('U3', fc.site(sd0), 'signatures are computed with the requested parameters or the default ones', okk, expected='kspec_from_params(k, prefix, default=True)', found=u(kd), stmt='tree kspec')
+        else:
+            # labels = X.ids: X must name, at that point, the very object that becomes the operand (same producing statement), a loaded file,
+            # and the operand variable is bound before the labels are read or is that object itself
+            base = lval.value if isinstance(lval, ast.Attribute) and lval.attr == 'ids' else None
+            bobj = origin(base, ld0) if base is not None else (None, None)
+            if isinstance(base, ast.Name) and base.id == sigs:
+                same = reaching_def(cn, sigs, ld0) is sd
+            else:
+                same = bobj[0] is sval and sval is not None
+            ok = base is not None and same and isinstance(sval, ast.Call) and (m.resolve_call(fc, sval) or '').endswith('load_signatures')
+            rep.add('U3', fc.site(ld), 'signature-file channel: leaf labels are the stored ids of the loaded signatures', ok, expected=f'{sigs} = load_signatures(sigfile); {labels} = {sigs}.ids', found=(u(sd0), u(ld0)), stmt='sigfile channel labels')
 
 
 from ..variants import V  # noqa: E402
 
 _C = 'src/gambit/cluster.py'
 _T = 'src/gambit/cli/tree.py'
+_ROW = ("\t\tleft_i = int(left_i)\n\t\tleft = clades[left_i]\n\t\tleft.branch_length = height - (0 if left_i < nleaves else link[left_i - nleaves, 2])\n\n"
+        "\t\tright_i = int(right_i)\n\t\tright = clades[right_i]\n\t\tright.branch_length = height - (0 if right_i < nleaves else link[right_i - nleaves, 2])\n\n"
+        "\t\tclades.append(Clade(clades=[left, right]))\n")
+_INNER = ("\t\tchildren = []\n\n\t\tfor child_i in (left_i, right_i):\n\t\t\tchild_i = int(child_i)\n\t\t\tchild = clades[child_i]\n"
+          "\t\t\tchild_height = 0 if child_i < nleaves else link[child_i - nleaves, 2]\n\t\t\tchild.branch_length = height - child_height\n\t\t\tchildren.append(child)\n\n"
+          "\t\tclades.append(Clade(clades=children))\n")
 VARIANTS = [
     V("method='single'", 'B', _C, "return linkage(sm, method='average')", "return linkage(sm, method='single')", 'U1'),
     V('right child height row off by one', 'B', _C, "link[right_i - nleaves, 2])", "link[right_i - nleaves + 1, 2])", 'U2'),
@@ -189,4 +382,25 @@ VARIANTS = [
       "\t\t\tif len(row_sig) == 0:\n\t\t\t\trow_out[:] = 1\n\t\t\telse:\n\t\t\t\tjaccarddist_array(row_sig, col_sigs, out=row_out)", 'B'),
     V('E: leaf test written >=', 'E', _C, "(0 if left_i < nleaves else link[left_i - nleaves, 2])", "(link[left_i - nleaves, 2] if left_i >= nleaves else 0)"),
     V('E: positional method argument', 'E', _C, "return linkage(sm, method='average')", "return linkage(sm, 'average')"),
+    # ---- idioms accepted since the refactoring round, each with its broken twin
+    V('E: both children handled by one inner loop over the literal pair, child height bound to a local, children collected in a list', 'E', _C, _ROW, _INNER),
+    V('inner loop: child height read from the size column', 'B', _C, _ROW, _INNER.replace("link[child_i - nleaves, 2]", "link[child_i - nleaves, 3]"), 'U2'),
+    V('inner loop: pair lists the left child twice', 'B', _C, _ROW, _INNER.replace("for child_i in (left_i, right_i):", "for child_i in (left_i, left_i):"), 'U2'),
+    V('inner loop: leaf test off by one', 'B', _C, _ROW, _INNER.replace("0 if child_i < nleaves else", "0 if child_i < nleaves - 1 else"), 'U2'),
+    V('two nodes appended per row (node numbering shifts)', 'B', _C, "\t\tclades.append(Clade(clades=[left, right]))\n", "\t\tclades.append(Clade(clades=[left, right]))\n\t\tclades.append(Clade(clades=[left, right]))\n", 'U2'),
+    V('E: child height chosen by an if statement', 'E', _C, "\t\tleft.branch_length = height - (0 if left_i < nleaves else link[left_i - nleaves, 2])\n",
+      "\t\tif left_i >= nleaves:\n\t\t\tleft_height = link[left_i - nleaves, 2]\n\t\telse:\n\t\t\tleft_height = 0\n\t\tleft.branch_length = height - left_height\n"),
+    V('if statement with the arms swapped (leaves get a height from the matrix)', 'B', _C, "\t\tleft.branch_length = height - (0 if left_i < nleaves else link[left_i - nleaves, 2])\n",
+      "\t\tif left_i >= nleaves:\n\t\t\tleft_height = 0\n\t\telse:\n\t\t\tleft_height = link[left_i - nleaves, 2]\n\t\tleft.branch_length = height - left_height\n", 'U2'),
+    V('E: leaf test as child - nleaves < 0, children as a comprehension over the pair', 'E', _C, "(0 if right_i < nleaves else link[right_i - nleaves, 2])", "(0 if right_i - nleaves < 0 else link[right_i - nleaves, 2])",
+      also=[(_C, "clades.append(Clade(clades=[left, right]))", "clades.append(Clade(clades=[clades[i] for i in (left_i, right_i)]))")]),
+    V('comprehension over the pair indexes with the height column', 'B', _C, "clades.append(Clade(clades=[left, right]))", "clades.append(Clade(clades=[clades[int(i)] for i in (left_i, height)]))", 'U2'),
+    V('E: linkage passed to the tree builder without a temporary; root bound to a local', 'E', _T, "\tlink = hclust(dmat)\n\ttree = linkage_to_bio_tree(link, labels)\n", "\ttree = linkage_to_bio_tree(hclust(dmat), labels)\n",
+      also=[(_C, "\treturn Tree(root=clades[-1], rooted=True)\n", "\troot = clades[-1]\n\treturn Tree(root=root, rooted=True)\n")]),
+    V('no temporary: the clustering gets a transformed matrix', 'B', _T, "\tlink = hclust(dmat)\n\ttree = linkage_to_bio_tree(link, labels)\n", "\ttree = linkage_to_bio_tree(hclust(dmat / dmat.max()), labels)\n", 'U4'),
+    V('root bound to a local: the first leaf', 'B', _C, "\treturn Tree(root=clades[-1], rooted=True)\n", "\troot = clades[0]\n\treturn Tree(root=root, rooted=True)\n", 'U2'),
+    V('E: loaded signatures bound to a local, operand and labels are copies of it', 'E', _T, "\t\tsigs = load_signatures(sigfile)\n\t\tlabels = sigs.ids\n", "\t\tloaded = load_signatures(sigfile)\n\t\tlabels = loaded.ids\n\t\tsigs = loaded\n"),
+    V('copies: the operand is a reordered view of the object the labels were read from', 'B', _T, "\t\tsigs = load_signatures(sigfile)\n\t\tlabels = sigs.ids\n", "\t\tloaded = load_signatures(sigfile)\n\t\tlabels = loaded.ids\n\t\tsigs = loaded[::-1]\n", 'U3'),
+    V('E: file ids bound to a local and copied into the labels', 'E', _T, "\t\tlabels, genome_files = common.get_sequence_files(files_arg, listfile, ldir)\n", "\t\tfile_ids, genome_files = common.get_sequence_files(files_arg, listfile, ldir)\n\t\tlabels = file_ids\n"),
+    V('copies: the labels are the file objects, not the ids', 'B', _T, "\t\tlabels, genome_files = common.get_sequence_files(files_arg, listfile, ldir)\n", "\t\tfile_ids, genome_files = common.get_sequence_files(files_arg, listfile, ldir)\n\t\tlabels = genome_files\n", 'U3'),
 ]
